@@ -221,3 +221,67 @@ func Harness_C04_tunnel_open() {
 	}
 	verif_Cover("C04.done")
 }
+
+// The mapping loses its validity between two tunnel opens of its own listening client: the
+// first open (valid mapping) is served, then the mapping is revoked / expires / is deactivated /
+// is deleted, and shortly afterwards the same client opens another tunnel with the same
+// credential. The second open must be refused - whatever the first one left behind.
+func Harness_C04_revoke_between() {
+	verif_ClockSet(int64(1) << 60)
+	ctx, stop := context.WithCancel(context.Background())
+	w := &c04World{ctx: ctx, maps: &c04Maps{m: map[string]*models.PortMapping{}}}
+	w.sm = session.NewSessionManager(nil, ctx)
+	defer func() { w.sm.Close(); stop() }()
+	w.sm.SetNodeID("node-A")
+	w.sm.SetAuthHandler(c04Auth{})
+	w.sm.SetCloudControl(c04SessCloud{w.maps})
+	mem := memory.New(ctx)
+	svc := conncode.NewService(repos.NewConnectionCodeRepository(repos.NewRepository(mem)), w.maps, nil, nil, ctx)
+	w.sm.SetTunnelHandler(NewServerTunnelHandler(&c04Cloud{maps: w.maps}, svc))
+	future := time.Now().Add(time.Hour)
+	mp := &models.PortMapping{ID: "pm1", ListenClientID: c04Listen, TargetClientID: c04Target, SecretKey: "k1", Status: models.MappingStatusActive, ExpiresAt: &future,
+		TargetHost: "127.0.0.1", TargetPort: 80, Protocol: models.ProtocolTCP}
+	w.maps.m["pm1"] = mp
+
+	secret := verif_Bool() // the credential: mapping id only, or mapping id + secret
+	who := c04Listen
+	if secret && verif_Bool() {
+		who = c04Target
+	}
+	mk := func(tid string) *packet.TunnelOpenRequest {
+		r := &packet.TunnelOpenRequest{TunnelID: tid, MappingID: "pm1"}
+		if secret {
+			r.SecretKey = "k1"
+		}
+		return r
+	}
+	rw1, id1 := w.newConn(who)
+	ack1 := w.open(rw1, id1, mk("tun-1"))
+	verif_Assert("C04.rb.first_served", ack1 != nil && ack1.Success)
+
+	// the mapping stops being valid
+	past := time.Now().Add(-time.Second)
+	switch verif_Choose(4) {
+	case 0:
+		cp := *mp
+		cp.IsRevoked = true
+		w.maps.m["pm1"] = &cp
+	case 1:
+		cp := *mp
+		cp.ExpiresAt = &past
+		w.maps.m["pm1"] = &cp
+	case 2:
+		cp := *mp
+		cp.Status = models.MappingStatusInactive
+		w.maps.m["pm1"] = &cp
+	case 3:
+		delete(w.maps.m, "pm1")
+	}
+	// a moment later (0 .. 25.5 s)
+	verif_ClockSet(int64(1)<<60 + int64(verif_Byte())*int64(100*time.Millisecond))
+	rw2, id2 := w.newConn(who)
+	ack2 := w.open(rw2, id2, mk("tun-2"))
+	verif_Assert("C04.rb.second_refused", ack2 != nil && !ack2.Success)
+	verif_Assert("C04.rb.second_not_attached", w.sm.GetTunnelBridgeByConnectionID(id2) == nil)
+	verif_Cover("C04.rb.done")
+}
